@@ -218,6 +218,12 @@ where
         &self.inner.1
     }
 
+    /// Number of edges that were created by calling `connect` on this node.
+    /// `iter()` yields exactly these edges first.
+    pub(crate) fn len_outbound(&self) -> usize {
+        self.inner.2.borrow().len_outbound()
+    }
+
     /// Returns the degree of the node. The degree is the number of
     /// adjacent edges.
     ///
